@@ -42,3 +42,34 @@ def c15(ctx):
         out.append((lab, G.rule_G1nm(ctx, prog, lab)))
     out.append(('configure.ac', G.rule_G4(ctx)))
     return out
+
+
+# ------------------------------------------------------------------ C20
+@prop('C20', level='proof',
+      explanation=('E3: forward must-be-tested dataflow on the CFG of every function that calls a raw libc allocator '
+                   '(malloc/calloc/realloc/posix_memalign/_mm_malloc/...): on every path from the call, the first use of the '
+                   'result other than a comparison or free is dominated by a NULL test whose failing edge ends in m4ri_die. '
+                   'E3-census: every other allocation request in the library goes through a wrapper for which E3 holds on all '
+                   'return paths. E3-3p: results of fopen/png_create_* are tested before use. E4: m4ri_die itself cannot return.'),
+      not_decided='zero-size requests (wrappers may return NULL for size 0: stated assumption); failures inside libpng/libc themselves')
+def c20(ctx):
+    from . import nullcheck as NC
+    out = []
+    cfgs = [frontend.host_config()]
+    if ctx.tier == 'thorough':
+        cfgs = frontend.legal_configs()
+    else:
+        h = frontend.host_config()
+        alt = dict(h)
+        alt['sse2'] = 0   # selects the plain malloc/calloc branch of the wrappers
+        cfgs.append(alt)
+    for cfg in cfgs:
+        prog = ctx.program(cfg)
+        if prog.errors:
+            raise frontend.AnalysisBroken('configuration %s does not type-check: %s' % (cfg_id(cfg), list(prog.errors.items())[0]))
+        lab = _label(cfg)
+        out.append((lab, NC.rule_E3(ctx, prog, lab)))
+        out.append((lab, NC.rule_E3_census(ctx, prog, lab)))
+        out.append((lab, NC.rule_E3_third_party(ctx, prog, lab)))
+        out.append((lab, NC.rule_E4(ctx, prog, lab)))
+    return out
